@@ -47,6 +47,8 @@ const (
 	bzAADOtherRequestKey
 	bzWrongTypeField
 	bzInteriorZero
+	bzPortSuffix
+	bzLabelPrefix
 	bzHostileMax
 	bzReplayedCiphertext = 50 // hostile; generated from a served request, not drawn by the generator
 	// benign classes: must not be confused with hostile ones
@@ -56,12 +58,13 @@ const (
 )
 
 // classes whose hostility consists in the origin name not being registered
-var originClass = map[int]bool{bzUnregistered: true, bzOneByteChanged: true, bzTrailing01: true, bzTrailingSpace: true, bzPrefix: true, bzEmptyUnregistered: true, bzInteriorZero: true}
+var originClass = map[int]bool{bzUnregistered: true, bzOneByteChanged: true, bzTrailing01: true, bzTrailingSpace: true, bzPrefix: true, bzEmptyUnregistered: true, bzInteriorZero: true, bzPortSuffix: true, bzLabelPrefix: true}
 
 var bzName = map[int]string{bzUnregistered: "unregistered-origin", bzOneByteChanged: "origin-one-byte-changed", bzTrailing01: "origin-trailing-0x01", bzTrailingSpace: "origin-trailing-space",
 	bzPrefix: "origin-prefix", bzEmptyUnregistered: "origin-empty-unregistered", bzReencrypt: "reencrypt-to-other-name-key", bzResignOtherKey: "resign-other-key",
 	bzReplacedRequestKey: "replaced-request-key-resigned", bzSigAbsent: "signature-absent", bzSigHalf: "signature-half", bzSigDoubled: "signature-doubled",
 	bzSignOtherContents: "signature-over-other-contents", bzMalformedInner: "malformed-inner-request", bzAADOtherRequestKey: "aad-bound-to-other-request-key", bzWrongTypeField: "wrong-type-field",
+	bzPortSuffix: "origin-registered-plus-port", bzLabelPrefix: "origin-registered-with-extra-label",
 	bzInteriorZero: "origin-registered-plus-zero-byte-and-suffix", bzReplayedCiphertext: "served-ciphertext-replayed-under-another-request-key",
 	bzHonestEquivalent: "byz-honest-equivalent", bzExtraPaddingBlock: "extra-zero-padding-block", bzMalleatedSig: "malleated-signature-r-N-s"}
 
@@ -153,6 +156,10 @@ func byzBuild(w *world.World, cls int, origin string, seed int64) ([]byte, error
 		q.PaddedOrigin = ref.PadOrigin(origin + " ")
 	case bzInteriorZero:
 		q.PaddedOrigin = ref.PadOrigin(origin + "\x00.attacker.test")
+	case bzPortSuffix:
+		q.PaddedOrigin = ref.PadOrigin(origin + ":8443")
+	case bzLabelPrefix:
+		q.PaddedOrigin = ref.PadOrigin("login." + origin)
 	case bzPrefix:
 		if len(origin) < 2 {
 			q.PaddedOrigin = ref.PadOrigin(origin + "z")
